@@ -36,9 +36,10 @@ static const char *const op_names[K_N] = { "log", "dump", "damage", "garbage", "
 // K_GARBAGE a0 length, a1 seed, a2 style: the file is replaced by bytes that never were a dump
 // K_PRINT   (no arguments) qb_log_blackbox_print_from_file(scratch/dump)
 
-enum { D_TRUNC, D_TRUNC_WRITES, D_HDR, D_BBHDR, D_CHUNK, D_REC, D_FMT, D_FLIPS, D_APPEND, D_N };
+enum { D_TRUNC, D_TRUNC_WRITES, D_HDR, D_BBHDR, D_CHUNK, D_REC, D_FMT, D_FLIPS, D_APPEND, D_LIMIT, D_N };
 static const char *const damage_names[D_N] = { "truncate", "truncate_after_kth_write", "ring_header_field", "blackbox_marker_block",
-					       "chunk_header_word", "record_field", "format_string_bytes", "random_byte_flips", "append_bytes" };
+					       "chunk_header_word", "record_field", "format_string_bytes", "random_byte_flips", "append_bytes",
+					       "record_at_read_buffer_limit" };
 
 // hazard groups of *legal* stimuli (a token in SIMK_AVOID switches the group off in the generator)
 enum { HZ_NONE = 0, HZ_PCT, HZ_PREC, HZ_WIDE, HZ_SSS, HZ_N };
@@ -180,8 +181,17 @@ static void make_args(int fid, uint64_t aseed, uint32_t serial, uint32_t mll, Ar
 	a.s1 = make_str(r, str_len(r, mll, allow_long && !three && !two));
 	a.s2 = make_str(r, str_len(r, mll, allow_long && two));
 	a.s3 = make_str(r, str_len(r, mll, allow_long && three));
-	if ((three || two) && a.s1.size() + a.s2.size() + 60 > mll) a.s1.resize(a.s1.size() / 4);
-	if (three && a.s1.size() + a.s2.size() + 60 > mll) a.s2.resize(a.s2.size() / 4);
+	if ((three || two) && f.hazard != HZ_SSS && f.hazard != HZ_PREC) {
+		// everything up to and including the last-but-one string must fit the line length with room to spare
+		size_t fixed = strlen(f.fmt) + 1 + 4 + 24;
+		size_t budget = mll > fixed ? mll - fixed : 0;
+		for (int guard = 0; guard < 20; guard++) {
+			size_t lead = a.s1.size() + 1 + (three ? a.s2.size() + 1 : 0);
+			if (lead < budget || lead <= (three ? 2u : 1u)) break;
+			a.s1.resize(a.s1.size() / 2);
+			if (three) a.s2.resize(a.s2.size() / 2);
+		}
+	}
 	if (f.shape == SH_UDD && fid == 13) a.d1 = (int)r.range(-24, 24);          // %*d width
 	if (f.shape == SH_UDS && fid == 14) a.d1 = (int)r.range(0, 40);            // %.*s precision
 	if (f.hazard == HZ_SSS) {
@@ -309,7 +319,7 @@ static void gen_damage(Rng &r, Plan &p, const bool dz[D_N], bool no_ptr_range, b
 {
 	for (int tries = 0; tries < 20; tries++) {
 		int kind;
-		static const int w[D_N] = { 14, 6, 22, 6, 12, 16, 12, 8, 4 };
+		static const int w[D_N] = { 14, 6, 20, 5, 12, 16, 12, 8, 3, 4 };
 		uint32_t t = (uint32_t)r.below(100), acc = 0;
 		for (kind = 0; kind < D_N - 1; kind++) { acc += (uint32_t)w[kind]; if (t < acc) break; }
 		if (!dz[kind]) continue;
@@ -337,7 +347,15 @@ static void gen_damage(Rng &r, Plan &p, const bool dz[D_N], bool no_ptr_range, b
 			p.add(0, K_DAMAGE, D_CHUNK, (int64_t)r.below(8), (int64_t)r.below(2), (int64_t)r.below(16), (int64_t)(r.u64() & 0xffffffff));
 			break;
 		case D_REC:
-			p.add(0, K_DAMAGE, D_REC, (int64_t)r.below(8), (int64_t)r.below(8), (int64_t)r.below(12), (int64_t)(r.u64() & 0xffffffff));
+		{
+			// the length fields and their bounds get most of the attention
+			uint32_t fk = (uint32_t)r.below(100);
+			static const int other[] = { 0, 1, 2, 5, 6 };
+			int64_t field = fk < 40 ? 3 : fk < 60 ? 7 : fk < 70 ? 4 : other[r.below(5)];
+			static const int edge[] = { 4, 5, 6, 9, 2, 3 };
+			int64_t mode = r.chance(1, 2) ? edge[r.below(6)] : (int64_t)r.below(12);
+			p.add(0, K_DAMAGE, D_REC, (int64_t)r.below(8), field, mode, (int64_t)(r.u64() & 0xffffffff));
+		}
 			break;
 		case D_FMT:
 			p.add(0, K_DAMAGE, D_FMT, (int64_t)r.below(8), no_fmt_deep ? (int64_t)r.below(3) : (int64_t)r.below(12), (int64_t)(r.u64() >> 20));
@@ -348,6 +366,9 @@ static void gen_damage(Rng &r, Plan &p, const bool dz[D_N], bool no_ptr_range, b
 			break; }
 		case D_APPEND:
 			p.add(0, K_DAMAGE, D_APPEND, r.range(1, 5000), (int64_t)(r.u64() >> 20));
+			break;
+		case D_LIMIT:
+			p.add(0, K_DAMAGE, D_LIMIT, (int64_t)r.below(8), (int64_t)r.below(8), (int64_t)r.below(6));
 			break;
 		}
 		return;
@@ -371,12 +392,13 @@ static void gen(const char *prop, RunSpec &spec)
 	if (avoid("damage-format-bytes")) dz[D_FMT] = false;
 	if (avoid("damage-record-fields")) dz[D_REC] = false;
 	if (avoid("damage-chunk-words")) dz[D_CHUNK] = false;
-	if (avoid("damage-flips")) dz[D_FLIPS] = false;
+	if (avoid("damage-flips")) dz[D_FLIPS] = dz[D_APPEND] = false;     // (bytes appended after a truncation are flipped bytes)
 	if (avoid("damage-header")) dz[D_HDR] = false;
+	if (avoid("record-at-buffer-limit")) dz[D_LIMIT] = false;
 	bool no_trunc_hdr = avoid("truncated-inside-header");
 	bool no_ptr_range = avoid("pointer-beyond-words");
 	bool no_read_fault = avoid("read-fault");
-	bool no_fmt_deep = avoid("format-conversion-damage");
+	bool no_fmt_deep = false;
 	bool no_big_mll = avoid("line-length-above-512");
 	bool no_small_mll = avoid("line-length-below-notice");
 
@@ -418,6 +440,7 @@ static void gen(const char *prop, RunSpec &spec)
 	}
 	// robustness: rounds of (log, dump under write faults, at-rest damage, print under read faults) or (garbage, print)
 	int rounds = (int)r.range(1, 3);
+	if (r.chance(1, 30)) p.add(0, K_PRINT);  // a file that does not exist
 	uint64_t wbase = 0, rbase = 0;           // per-task call indices of the first write of the next dump / first read of the next print
 	for (int rd = 0; rd < rounds; rd++) {
 		if (r.chance(1, 5)) {
@@ -780,6 +803,21 @@ static void apply_damage(const Op &op_in)
 		for (int64_t k = 0; k < cnt; k++) d[lo + r.below(hi - lo)] ^= (uint8_t)(1u << r.below(8)) | (r.chance(1, 3) ? (uint8_t)r.u64() : 0);
 		done = true;
 		break; }
+	case D_LIMIT: {
+		// the chunk is announced as long as the printer's read buffer (2 * QB_LOG_MAX_LEN) and its fn_size is put at the
+		// edge of what the printer's bound lets through
+		Img im(d);
+		if (!im.ok) break;
+		std::vector<uint32_t> cs = im.chunks();
+		if (cs.empty()) break;
+		uint32_t c = cs[(size_t)op.a[1] % cs.size()];
+		uint32_t sz = 2 * QB_LOG_MAX_LEN - (uint32_t)(op.a[2] % 8);
+		static const uint32_t back[] = { 27, 26, 33, 35, 0, 13 };
+		uint32_t fnv = sz - back[op.a[3] % 6];
+		im.set_word(c, sz);
+		for (int k = 0; k < 4; k++) d[im.boff(c, 9 + (uint64_t)k)] = (uint8_t)(fnv >> (8 * k));
+		done = true;
+		break; }
 	case D_APPEND: {
 		Rng r((uint64_t)op.a[2]);
 		int64_t n = op.a[1] < 1 ? 1 : op.a[1] > 100000 ? 100000 : op.a[1];
@@ -1030,7 +1068,7 @@ static void op_log(const Op &op)
 	unsigned long long ms = (now % 1000000000ULL) / 1000000ULL;
 	rec.text = expect_text(fmt.c_str(), f.shape, a);
 	// unless the plan allows texts of 511 characters and more (hazard group "text-longer-than-511"), shorten the string arguments
-	for (int guard = 0; guard < 40 && G.text_cap && rec.text.size() > (size_t)G.text_cap && f.hazard != HZ_WIDE; guard++) {
+	for (int guard = 0; guard < 40 && G.text_cap && rec.text.size() > (size_t)G.text_cap && f.hazard == HZ_NONE; guard++) {
 		std::string &big = a.s1.size() >= a.s2.size() && a.s1.size() >= a.s3.size() ? a.s1 : a.s2.size() >= a.s3.size() ? a.s2 : a.s3;
 		if (big.empty() && a.fill.empty()) break;
 		if (!big.empty()) big.resize(big.size() - std::min<size_t>(big.size(), rec.text.size() - (size_t)G.text_cap));
